@@ -322,10 +322,14 @@ def flip_cases(ctx, tmp, n):
         p = tmp / f"flip{i}.gkf"
         p.write_text(text)
         cur = {k: dict(v) for k, v in net["points"].items()}
-        for o in net["obs"]:          # <coordinates><point .../> also stores the observed values in the point
-            if o["kind"] == "coords":
+        for o in net["obs"]:          # <coordinates><point .../> stores the observed values in the point only where the
+            if o["kind"] == "coords":  # point has no coordinates of that group yet (gkfparser process_point(atts, observed))
                 for it in o["items"]:
-                    cur[it["id"]].update({k: it[k] for k in ("x", "y", "z") if k in it})
+                    q = cur[it["id"]]
+                    if "x" in it and "x" not in q:
+                        q.update({"x": it["x"], "y": it["y"]})
+                    if "z" in it and "z" not in q:
+                        q["z"] = it["z"]
         pts = sorted(cur.items(), key=lambda kv: kv[0].encode())
         toks = [f"flip {p} {net['axes']} {net['angles']} {len(pts)}"]
         f6 = lambda v: float(f"{v:.6f}")
